@@ -348,7 +348,8 @@ func (a Float) M__bool__() (Object, error) {
 }
 
 func (a Float) M__int__() (Object, error) {
-	if a >= IntMin && a <= IntMax {
+	// Float(IntMax) rounds to 2**63 which does not fit an Int
+	if a >= IntMin && a < IntMax {
 		return Int(a), nil
 	}
 	frac, exp := math.Frexp(float64(a))              // x = frac << exp; 0.5 <= abs(x) < 1
